@@ -67,6 +67,8 @@ EXPENSIVE = [
     "9**9**9", "10**10**10", "1 << 10**10", "'a' * 10**9", "[0] * 10**9", "pow(9, 10**9)", "pow(3, 400000000)", "2**2**2**2**2**2",
     "int('9' * 10**7)", "abs(-(9**9**9))", "max(9**9**9, 1)", "len('a' * 10**9)", "str(10**10**5)", "float('1e999')", "1e999", "-1e999",
     "1e999 - 1e999", "7 // 0", "7 % 0", "7 / 0", "2.0 ** 100000", "(2**4000) * (2**4000) * (2**4000)", "-(2**63) - 1", "1_000_000 * 1_000_000 * 1_000_000", "0.1 + 0.2", "True + True",
+    # integers that fold but do not fit a double / a C integer
+    "2**2000", "-(2**2000)", "10**400", "2**1024", "2**1023 * 2", "2**64", "-(2**64)", "2**31", "1e308 * 10", "10**400 / 10**399", "10**400 // 1", "float(10**400)", "int(1e308) * 10",
 ]
 
 # name-free constant expressions that are ill-typed on the host: folding them must end in firmware text or ValueError
@@ -173,6 +175,14 @@ def gen(tier: str) -> Iterator[dict]:
         "helperdag": "".join(f"def h{i}(v):\n    return " + (f"h{i - 1}(v) + h{i - 1}(v)" if i else "v + 1") + "\n" for i in range(40)) + "mon.write(h39(1))\n",
         "condchain": "x = " + " < ".join(["q"] * 40) + "\n",
         "nestedcmp": "x = " + "(" * 12 + "1 < q < 3" + " < 3)" * 12 + "\n",
+        "nestedcmp_mid": "x = " + "(1 < " * 30 + "q" + " < 3)" * 30 + "\n",
+        "nestedcmp_mid_loop": "while True:\n    if " + "(1 < " * 30 + "analog_read(3)" + " < 3)" * 30 + ":\n        q = 1\n",
+        "nested_ifexp": "x = " + "(q if q else " * 30 + "q" + ")" * 30 + "\n",
+        "nested_minmax": "x = " + "max(q, min(q, " * 25 + "q" + "))" * 25 + "\n",
+        "nested_abs": "x = " + "abs(" * 60 + "q" + ")" * 60 + "\n",
+        "nested_fstr": "s9 = " + "f\"{" * 1 + "q" + "}\"" * 1 + "\n" + "".join(f"s{10 + i} = f\"{{s{9 + i}}}{{s{9 + i}}}\"\n" for i in range(30)),
+        "nested_index": "x = " + "y[" * 40 + "0" + "]" * 40 + "\n",
+        "nested_call": "def idf(v):\n    return v\nx = " + "idf(" * 60 + "q" + ")" * 60 + "\n",
     }
     for name, body in growth.items():
         yield {"id": f"G:{name}", "kind": "growth", "src": base + body}
